@@ -95,7 +95,8 @@ Definition py_slice {A} (l : list A) (a b s : option Z) : option (list A) :=
 Inductive lelt :=
 | LB (b : bool)      (* type(e) is bool *)
 | LI (i : Z)         (* type(e) is int  *)
-| LX.                (* any other class (int subclasses, None, str, ...) *)
+| LJ (i : Z)         (* an instance of a proper subclass of int other than bool (IntEnum, ...) *)
+| LX.                (* any other class (None, str, float, ...) *)
 
 Inductive key :=
 | IxInt (i : Z)                    (* isinstance(key, int): ints and bools *)
